@@ -32,9 +32,11 @@ from ..engine.arrays import SArray
 from ..engine.lmfit_model import sym_parameters
 
 LEVEL = "other"
-EXPLANATION = ("Deductive: write set, frame, refusal rule and crash invariant of save_hdf5 and the reader/writer key "
-               "correspondence of load_hdf5 on a finite-map model of the container (h5py assumed), plus string "
-               "lemmas for the two text codecs. Bounded: real containers, real curves, native failure injection.")
+EXPLANATION = ("Deductive: write set, frame and refusal rule of save_hdf5, the crash invariant decided by executing "
+               "the real load_hdf5 on the container an interrupted save leaves behind (failure injected at every "
+               "write, symbolically), and the reader/writer key correspondence of load_hdf5, on a finite-map model "
+               "of the container (h5py assumed), plus string lemmas for the two text codecs. Bounded: real "
+               "containers, real curves, native failure injection with both load modes.")
 MOD = "nanite.rate.io"
 DATASETS = ["fit", "fit range", "force", "fit residuals", "tip position", "segment"]
 USER = ["user comment", "user name", "user rate", "user time", "user time str"]
